@@ -4,46 +4,50 @@ import WaVerif.Model.C03CExpr
 namespace WaVerif.Gen.C03
 open WaVerif.C03
 
-/-- `i32.add`  ⇒  R0.i32 = arg0; R1.i32 = arg1; R0.i32 = R0.i32 + R1.i32; return R0.i32; -/
+/-- `i32.add`  ⇒  R0.i32 = arg0; R1.i32 = arg1; R0.i32 = (int32_t)((uint32_t)R0.i32 + (uint32_t)R1.i32); return R0.i32; -/
 def f_i32_add : CFunc := { params := [.i32, .i32], body := [
     .assign (.reg 0 .i32) (.arg 0 .i32),
     .assign (.reg 1 .i32) (.arg 1 .i32),
-    .assign (.reg 0 .i32) (.bin .add (.reg 0 .i32) (.reg 1 .i32)),
+    .assign (.reg 0 .i32) (.cast .i32 (.bin .add (.cast .u32 (.reg 0 .i32)) (.cast .u32 (.reg 1 .i32)))),
     .ret (.reg 0 .i32)] }
-/-- `i32.sub`  ⇒  R0.i32 = arg0; R1.i32 = arg1; R0.i32 = R0.i32 - R1.i32; return R0.i32; -/
+/-- `i32.sub`  ⇒  R0.i32 = arg0; R1.i32 = arg1; R0.i32 = (int32_t)((uint32_t)R0.i32 - (uint32_t)R1.i32); return R0.i32; -/
 def f_i32_sub : CFunc := { params := [.i32, .i32], body := [
     .assign (.reg 0 .i32) (.arg 0 .i32),
     .assign (.reg 1 .i32) (.arg 1 .i32),
-    .assign (.reg 0 .i32) (.bin .sub (.reg 0 .i32) (.reg 1 .i32)),
+    .assign (.reg 0 .i32) (.cast .i32 (.bin .sub (.cast .u32 (.reg 0 .i32)) (.cast .u32 (.reg 1 .i32)))),
     .ret (.reg 0 .i32)] }
-/-- `i32.mul`  ⇒  R0.i32 = arg0; R1.i32 = arg1; R0.i32 = R0.i32 * R1.i32; return R0.i32; -/
+/-- `i32.mul`  ⇒  R0.i32 = arg0; R1.i32 = arg1; R0.i32 = (int32_t)((uint32_t)R0.i32 * (uint32_t)R1.i32); return R0.i32; -/
 def f_i32_mul : CFunc := { params := [.i32, .i32], body := [
     .assign (.reg 0 .i32) (.arg 0 .i32),
     .assign (.reg 1 .i32) (.arg 1 .i32),
-    .assign (.reg 0 .i32) (.bin .mul (.reg 0 .i32) (.reg 1 .i32)),
+    .assign (.reg 0 .i32) (.cast .i32 (.bin .mul (.cast .u32 (.reg 0 .i32)) (.cast .u32 (.reg 1 .i32)))),
     .ret (.reg 0 .i32)] }
-/-- `i32.div_s`  ⇒  R0.i32 = arg0; R1.i32 = arg1; R0.i32 = R0.i32 / R1.i32; return R0.i32; -/
+/-- `i32.div_s`  ⇒  R0.i32 = arg0; R1.i32 = arg1; if(R1.i32 == 0 || (R0.i32 == (-2147483647-1) && R1.i32 == -1)) abort(); R0.i32 = R0.i32 / R1.i32; return R0.i32; -/
 def f_i32_div_s : CFunc := { params := [.i32, .i32], body := [
     .assign (.reg 0 .i32) (.arg 0 .i32),
     .assign (.reg 1 .i32) (.arg 1 .i32),
+    .ifThen (.lor (.bin .eq (.reg 1 .i32) (.lit 0)) (.land (.bin .eq (.reg 0 .i32) (.bin .sub (.un .neg (.lit 2147483647)) (.lit 1))) (.bin .eq (.reg 1 .i32) (.un .neg (.lit 1))))) [.abort],
     .assign (.reg 0 .i32) (.bin .div (.reg 0 .i32) (.reg 1 .i32)),
     .ret (.reg 0 .i32)] }
-/-- `i32.div_u`  ⇒  R0.i32 = arg0; R1.i32 = arg1; R0.i32 = (int32_t)((uint32_t)(R0.i32)/(uint32_t)(R1.i32)); return R0.i32; -/
+/-- `i32.div_u`  ⇒  R0.i32 = arg0; R1.i32 = arg1; if(R1.i32 == 0) abort(); R0.i32 = (int32_t)((uint32_t)(R0.i32)/(uint32_t)(R1.i32)); return R0.i32; -/
 def f_i32_div_u : CFunc := { params := [.i32, .i32], body := [
     .assign (.reg 0 .i32) (.arg 0 .i32),
     .assign (.reg 1 .i32) (.arg 1 .i32),
+    .ifThen (.bin .eq (.reg 1 .i32) (.lit 0)) [.abort],
     .assign (.reg 0 .i32) (.cast .i32 (.bin .div (.cast .u32 (.reg 0 .i32)) (.cast .u32 (.reg 1 .i32)))),
     .ret (.reg 0 .i32)] }
-/-- `i32.rem_s`  ⇒  R0.i32 = arg0; R1.i32 = arg1; R0.i32 = R0.i32 % R1.i32; return R0.i32; -/
+/-- `i32.rem_s`  ⇒  R0.i32 = arg0; R1.i32 = arg1; if(R1.i32 == 0) abort(); R0.i32 = (R1.i32 == -1)? 0: R0.i32 % R1.i32; return R0.i32; -/
 def f_i32_rem_s : CFunc := { params := [.i32, .i32], body := [
     .assign (.reg 0 .i32) (.arg 0 .i32),
     .assign (.reg 1 .i32) (.arg 1 .i32),
-    .assign (.reg 0 .i32) (.bin .rem (.reg 0 .i32) (.reg 1 .i32)),
+    .ifThen (.bin .eq (.reg 1 .i32) (.lit 0)) [.abort],
+    .assign (.reg 0 .i32) (.cond (.bin .eq (.reg 1 .i32) (.un .neg (.lit 1))) (.lit 0) (.bin .rem (.reg 0 .i32) (.reg 1 .i32))),
     .ret (.reg 0 .i32)] }
-/-- `i32.rem_u`  ⇒  R0.i32 = arg0; R1.i32 = arg1; R0.i32 = (int32_t)((uint32_t)(R0.i32)%(uint32_t)(R1.i32)); return R0.i32; -/
+/-- `i32.rem_u`  ⇒  R0.i32 = arg0; R1.i32 = arg1; if(R1.i32 == 0) abort(); R0.i32 = (int32_t)((uint32_t)(R0.i32)%(uint32_t)(R1.i32)); return R0.i32; -/
 def f_i32_rem_u : CFunc := { params := [.i32, .i32], body := [
     .assign (.reg 0 .i32) (.arg 0 .i32),
     .assign (.reg 1 .i32) (.arg 1 .i32),
+    .ifThen (.bin .eq (.reg 1 .i32) (.lit 0)) [.abort],
     .assign (.reg 0 .i32) (.cast .i32 (.bin .rem (.cast .u32 (.reg 0 .i32)) (.cast .u32 (.reg 1 .i32)))),
     .ret (.reg 0 .i32)] }
 /-- `i32.and`  ⇒  R0.i32 = arg0; R1.i32 = arg1; R0.i32 = R0.i32 & R1.i32; return R0.i32; -/
@@ -64,35 +68,35 @@ def f_i32_xor : CFunc := { params := [.i32, .i32], body := [
     .assign (.reg 1 .i32) (.arg 1 .i32),
     .assign (.reg 0 .i32) (.bin .bxor (.reg 0 .i32) (.reg 1 .i32)),
     .ret (.reg 0 .i32)] }
-/-- `i32.shl`  ⇒  R0.i32 = arg0; R1.i32 = arg1; R0.i32 = R0.i32 << (R1.i32&63); return R0.i32; -/
+/-- `i32.shl`  ⇒  R0.i32 = arg0; R1.i32 = arg1; R0.i32 = (int32_t)((uint32_t)R0.i32 << (R1.i32&31)); return R0.i32; -/
 def f_i32_shl : CFunc := { params := [.i32, .i32], body := [
     .assign (.reg 0 .i32) (.arg 0 .i32),
     .assign (.reg 1 .i32) (.arg 1 .i32),
-    .assign (.reg 0 .i32) (.bin .shl (.reg 0 .i32) (.bin .band (.reg 1 .i32) (.lit 63))),
+    .assign (.reg 0 .i32) (.cast .i32 (.bin .shl (.cast .u32 (.reg 0 .i32)) (.bin .band (.reg 1 .i32) (.lit 31)))),
     .ret (.reg 0 .i32)] }
-/-- `i32.shr_s`  ⇒  R0.i32 = arg0; R1.i32 = arg1; R0.i32 = R0.i32 >> (R1.i32&63); return R0.i32; -/
+/-- `i32.shr_s`  ⇒  R0.i32 = arg0; R1.i32 = arg1; R0.i32 = R0.i32 >> (R1.i32&31); return R0.i32; -/
 def f_i32_shr_s : CFunc := { params := [.i32, .i32], body := [
     .assign (.reg 0 .i32) (.arg 0 .i32),
     .assign (.reg 1 .i32) (.arg 1 .i32),
-    .assign (.reg 0 .i32) (.bin .shr (.reg 0 .i32) (.bin .band (.reg 1 .i32) (.lit 63))),
+    .assign (.reg 0 .i32) (.bin .shr (.reg 0 .i32) (.bin .band (.reg 1 .i32) (.lit 31))),
     .ret (.reg 0 .i32)] }
-/-- `i32.shr_u`  ⇒  R0.i32 = arg0; R1.i32 = arg1; R0.i32 = (int32_t)((uint32_t)(R0.i32)>>(uint32_t)(R1.i32&63)); return R0.i32; -/
+/-- `i32.shr_u`  ⇒  R0.i32 = arg0; R1.i32 = arg1; R0.i32 = (int32_t)((uint32_t)(R0.i32)>>(uint32_t)(R1.i32&31)); return R0.i32; -/
 def f_i32_shr_u : CFunc := { params := [.i32, .i32], body := [
     .assign (.reg 0 .i32) (.arg 0 .i32),
     .assign (.reg 1 .i32) (.arg 1 .i32),
-    .assign (.reg 0 .i32) (.cast .i32 (.bin .shr (.cast .u32 (.reg 0 .i32)) (.cast .u32 (.bin .band (.reg 1 .i32) (.lit 63))))),
+    .assign (.reg 0 .i32) (.cast .i32 (.bin .shr (.cast .u32 (.reg 0 .i32)) (.cast .u32 (.bin .band (.reg 1 .i32) (.lit 31))))),
     .ret (.reg 0 .i32)] }
-/-- `i32.rotl`  ⇒  R0.i32 = arg0; R1.i32 = arg1; R0.i32 = (((R0.i32) << ((R1.i32) & (31))) | ((R0.i32) >> (((31) - (R1.i32) + 1) & (31)))); return R0.i32; -/
+/-- `i32.rotl`  ⇒  R0.i32 = arg0; R1.i32 = arg1; R0.i32 = (int32_t)((((uint32_t)R0.i32) << (((uint32_t)R1.i32) & (31))) | (((uint32_t)R0.i32) >> (((31) - ((uint32_t)R1.i32) + 1) & (31)))); return R0.i32; -/
 def f_i32_rotl : CFunc := { params := [.i32, .i32], body := [
     .assign (.reg 0 .i32) (.arg 0 .i32),
     .assign (.reg 1 .i32) (.arg 1 .i32),
-    .assign (.reg 0 .i32) (.bin .bor (.bin .shl (.reg 0 .i32) (.bin .band (.reg 1 .i32) (.lit 31))) (.bin .shr (.reg 0 .i32) (.bin .band (.bin .add (.bin .sub (.lit 31) (.reg 1 .i32)) (.lit 1)) (.lit 31)))),
+    .assign (.reg 0 .i32) (.cast .i32 (.bin .bor (.bin .shl (.cast .u32 (.reg 0 .i32)) (.bin .band (.cast .u32 (.reg 1 .i32)) (.lit 31))) (.bin .shr (.cast .u32 (.reg 0 .i32)) (.bin .band (.bin .add (.bin .sub (.lit 31) (.cast .u32 (.reg 1 .i32))) (.lit 1)) (.lit 31))))),
     .ret (.reg 0 .i32)] }
-/-- `i32.rotr`  ⇒  R0.i32 = arg0; R1.i32 = arg1; R0.i32 = (((R0.i32) >> ((R1.i32) & (31))) | ((R0.i32) << (((31) - (R1.i32) + 1) & (31)))); return R0.i32; -/
+/-- `i32.rotr`  ⇒  R0.i32 = arg0; R1.i32 = arg1; R0.i32 = (int32_t)((((uint32_t)R0.i32) >> (((uint32_t)R1.i32) & (31))) | (((uint32_t)R0.i32) << (((31) - ((uint32_t)R1.i32) + 1) & (31)))); return R0.i32; -/
 def f_i32_rotr : CFunc := { params := [.i32, .i32], body := [
     .assign (.reg 0 .i32) (.arg 0 .i32),
     .assign (.reg 1 .i32) (.arg 1 .i32),
-    .assign (.reg 0 .i32) (.bin .bor (.bin .shr (.reg 0 .i32) (.bin .band (.reg 1 .i32) (.lit 31))) (.bin .shl (.reg 0 .i32) (.bin .band (.bin .add (.bin .sub (.lit 31) (.reg 1 .i32)) (.lit 1)) (.lit 31)))),
+    .assign (.reg 0 .i32) (.cast .i32 (.bin .bor (.bin .shr (.cast .u32 (.reg 0 .i32)) (.bin .band (.cast .u32 (.reg 1 .i32)) (.lit 31))) (.bin .shl (.cast .u32 (.reg 0 .i32)) (.bin .band (.bin .add (.bin .sub (.lit 31) (.cast .u32 (.reg 1 .i32))) (.lit 1)) (.lit 31))))),
     .ret (.reg 0 .i32)] }
 /-- `i32.eq`  ⇒  R0.i32 = arg0; R1.i32 = arg1; R0.i32 = (R0.i32==R1.i32)? 1: 0; return R0.i32; -/
 def f_i32_eq : CFunc := { params := [.i32, .i32], body := [
@@ -181,46 +185,44 @@ def f_select_i32 : CFunc := { params := [.i32, .i32, .i32], body := [
     .assign (.reg 2 .i32) (.arg 2 .i32),
     .assign (.reg 0 .i32) (.cond (.reg 2 .i32) (.reg 0 .i32) (.reg 1 .i32)),
     .ret (.reg 0 .i32)] }
-/-- `i64.add`  ⇒  R0.i64 = arg0; R1.i64 = arg1; R0.i64 = R0.i64 + R1.i64; return R0.i64; -/
+/-- `i64.add`  ⇒  R0.i64 = arg0; R1.i64 = arg1; R0.i64 = (int64_t)((uint64_t)R0.i64 + (uint64_t)R1.i64); return R0.i64; -/
 def f_i64_add : CFunc := { params := [.i64, .i64], body := [
     .assign (.reg 0 .i64) (.arg 0 .i64),
     .assign (.reg 1 .i64) (.arg 1 .i64),
-    .assign (.reg 0 .i64) (.bin .add (.reg 0 .i64) (.reg 1 .i64)),
+    .assign (.reg 0 .i64) (.cast .i64 (.bin .add (.cast .u64 (.reg 0 .i64)) (.cast .u64 (.reg 1 .i64)))),
     .ret (.reg 0 .i64)] }
-/-- `i64.sub`  ⇒  R0.i64 = arg0; R1.i64 = arg1; R0.i64 = R0.i64 - R1.i64; return R0.i64; -/
+/-- `i64.sub`  ⇒  R0.i64 = arg0; R1.i64 = arg1; R0.i64 = (int64_t)((uint64_t)R0.i64 - (uint64_t)R1.i64); return R0.i64; -/
 def f_i64_sub : CFunc := { params := [.i64, .i64], body := [
     .assign (.reg 0 .i64) (.arg 0 .i64),
     .assign (.reg 1 .i64) (.arg 1 .i64),
-    .assign (.reg 0 .i64) (.bin .sub (.reg 0 .i64) (.reg 1 .i64)),
+    .assign (.reg 0 .i64) (.cast .i64 (.bin .sub (.cast .u64 (.reg 0 .i64)) (.cast .u64 (.reg 1 .i64)))),
     .ret (.reg 0 .i64)] }
-/-- `i64.mul`  ⇒  R0.i64 = arg0; R1.i64 = arg1; R0.i64 = R0.i64 * R1.i64; return R0.i64; -/
+/-- `i64.mul`  ⇒  R0.i64 = arg0; R1.i64 = arg1; R0.i64 = (int64_t)((uint64_t)R0.i64 * (uint64_t)R1.i64); return R0.i64; -/
 def f_i64_mul : CFunc := { params := [.i64, .i64], body := [
     .assign (.reg 0 .i64) (.arg 0 .i64),
     .assign (.reg 1 .i64) (.arg 1 .i64),
-    .assign (.reg 0 .i64) (.bin .mul (.reg 0 .i64) (.reg 1 .i64)),
+    .assign (.reg 0 .i64) (.cast .i64 (.bin .mul (.cast .u64 (.reg 0 .i64)) (.cast .u64 (.reg 1 .i64)))),
     .ret (.reg 0 .i64)] }
-/-- `i64.div_s`  ⇒  R0.i64 = arg0; R1.i64 = arg1; R0.i64 = R0.i64 / R1.i64; return R0.i64; -/
-def f_i64_div_s : CFunc := { params := [.i64, .i64], body := [
-    .assign (.reg 0 .i64) (.arg 0 .i64),
-    .assign (.reg 1 .i64) (.arg 1 .i64),
-    .assign (.reg 0 .i64) (.bin .div (.reg 0 .i64) (.reg 1 .i64)),
-    .ret (.reg 0 .i64)] }
-/-- `i64.div_u`  ⇒  R0.i64 = arg0; R1.i64 = arg1; R0.i64 = (int64_t)((uint64_t)(R0.i64)/(uint64_t)(R1.i64)); return R0.i64; -/
+-- i64_div_s (i64.div_s): UNMODELLED: constant with suffix / non-decimal / floating constant at '9223372036854775807L -1'   C: val_t R0, R1; R0.i64 = arg0; R1.i64 = arg1; if(R1.i64 == 0 || (R0.i64 == (-9223372036854775807L -1) && R1.i64 == -1)) abort(); R0.i64 = R0.i64 / R1.i64; return R0.i64;
+/-- `i64.div_u`  ⇒  R0.i64 = arg0; R1.i64 = arg1; if(R1.i64 == 0) abort(); R0.i64 = (int64_t)((uint64_t)(R0.i64)/(uint64_t)(R1.i64)); return R0.i64; -/
 def f_i64_div_u : CFunc := { params := [.i64, .i64], body := [
     .assign (.reg 0 .i64) (.arg 0 .i64),
     .assign (.reg 1 .i64) (.arg 1 .i64),
+    .ifThen (.bin .eq (.reg 1 .i64) (.lit 0)) [.abort],
     .assign (.reg 0 .i64) (.cast .i64 (.bin .div (.cast .u64 (.reg 0 .i64)) (.cast .u64 (.reg 1 .i64)))),
     .ret (.reg 0 .i64)] }
-/-- `i64.rem_s`  ⇒  R0.i64 = arg0; R1.i64 = arg1; R0.i64 = (int64_t)((int64_t)(R0.i64)%(int64_t)(R1.i64)); return R0.i64; -/
+/-- `i64.rem_s`  ⇒  R0.i64 = arg0; R1.i64 = arg1; if(R1.i64 == 0) abort(); R0.i64 = (R1.i64 == -1)? 0: R0.i64 % R1.i64; return R0.i64; -/
 def f_i64_rem_s : CFunc := { params := [.i64, .i64], body := [
     .assign (.reg 0 .i64) (.arg 0 .i64),
     .assign (.reg 1 .i64) (.arg 1 .i64),
-    .assign (.reg 0 .i64) (.cast .i64 (.bin .rem (.cast .i64 (.reg 0 .i64)) (.cast .i64 (.reg 1 .i64)))),
+    .ifThen (.bin .eq (.reg 1 .i64) (.lit 0)) [.abort],
+    .assign (.reg 0 .i64) (.cond (.bin .eq (.reg 1 .i64) (.un .neg (.lit 1))) (.lit 0) (.bin .rem (.reg 0 .i64) (.reg 1 .i64))),
     .ret (.reg 0 .i64)] }
-/-- `i64.rem_u`  ⇒  R0.i64 = arg0; R1.i64 = arg1; R0.i64 = (int64_t)((uint64_t)(R0.i64)%(uint64_t)(R1.i64)); return R0.i64; -/
+/-- `i64.rem_u`  ⇒  R0.i64 = arg0; R1.i64 = arg1; if(R1.i64 == 0) abort(); R0.i64 = (int64_t)((uint64_t)(R0.i64)%(uint64_t)(R1.i64)); return R0.i64; -/
 def f_i64_rem_u : CFunc := { params := [.i64, .i64], body := [
     .assign (.reg 0 .i64) (.arg 0 .i64),
     .assign (.reg 1 .i64) (.arg 1 .i64),
+    .ifThen (.bin .eq (.reg 1 .i64) (.lit 0)) [.abort],
     .assign (.reg 0 .i64) (.cast .i64 (.bin .rem (.cast .u64 (.reg 0 .i64)) (.cast .u64 (.reg 1 .i64)))),
     .ret (.reg 0 .i64)] }
 /-- `i64.and`  ⇒  R0.i64 = arg0; R1.i64 = arg1; R0.i64 = R0.i64 & R1.i64; return R0.i64; -/
@@ -241,11 +243,11 @@ def f_i64_xor : CFunc := { params := [.i64, .i64], body := [
     .assign (.reg 1 .i64) (.arg 1 .i64),
     .assign (.reg 0 .i64) (.bin .bxor (.reg 0 .i64) (.reg 1 .i64)),
     .ret (.reg 0 .i64)] }
-/-- `i64.shl`  ⇒  R0.i64 = arg0; R1.i64 = arg1; R0.i64 = R0.i64 << (((uint64_t)R1.i64)&63); return R0.i64; -/
+/-- `i64.shl`  ⇒  R0.i64 = arg0; R1.i64 = arg1; R0.i64 = (int64_t)((uint64_t)R0.i64 << (((uint64_t)R1.i64)&63)); return R0.i64; -/
 def f_i64_shl : CFunc := { params := [.i64, .i64], body := [
     .assign (.reg 0 .i64) (.arg 0 .i64),
     .assign (.reg 1 .i64) (.arg 1 .i64),
-    .assign (.reg 0 .i64) (.bin .shl (.reg 0 .i64) (.bin .band (.cast .u64 (.reg 1 .i64)) (.lit 63))),
+    .assign (.reg 0 .i64) (.cast .i64 (.bin .shl (.cast .u64 (.reg 0 .i64)) (.bin .band (.cast .u64 (.reg 1 .i64)) (.lit 63)))),
     .ret (.reg 0 .i64)] }
 /-- `i64.shr_s`  ⇒  R0.i64 = arg0; R1.i64 = arg1; R0.i64 = R0.i64 >> (((uint64_t)R1.i64)&63); return R0.i64; -/
 def f_i64_shr_s : CFunc := { params := [.i64, .i64], body := [
@@ -259,17 +261,17 @@ def f_i64_shr_u : CFunc := { params := [.i64, .i64], body := [
     .assign (.reg 1 .i64) (.arg 1 .i64),
     .assign (.reg 0 .i64) (.cast .i64 (.bin .shr (.cast .u64 (.reg 0 .i64)) (.bin .band (.cast .u64 (.reg 1 .i64)) (.lit 63)))),
     .ret (.reg 0 .i64)] }
-/-- `i64.rotl`  ⇒  R0.i64 = arg0; R1.i64 = arg1; R0.i64 = (((R0.i64) << ((R1.i64) & (63))) | ((R0.i64) >> (((63) - (R1.i64) + 1) & (63)))); return R0.i64; -/
+/-- `i64.rotl`  ⇒  R0.i64 = arg0; R1.i64 = arg1; R0.i64 = (int64_t)((((uint64_t)R0.i64) << (((uint64_t)R1.i64) & (63))) | (((uint64_t)R0.i64) >> (((63) - ((uint64_t)R1.i64) + 1) & (63)))); return R0.i64; -/
 def f_i64_rotl : CFunc := { params := [.i64, .i64], body := [
     .assign (.reg 0 .i64) (.arg 0 .i64),
     .assign (.reg 1 .i64) (.arg 1 .i64),
-    .assign (.reg 0 .i64) (.bin .bor (.bin .shl (.reg 0 .i64) (.bin .band (.reg 1 .i64) (.lit 63))) (.bin .shr (.reg 0 .i64) (.bin .band (.bin .add (.bin .sub (.lit 63) (.reg 1 .i64)) (.lit 1)) (.lit 63)))),
+    .assign (.reg 0 .i64) (.cast .i64 (.bin .bor (.bin .shl (.cast .u64 (.reg 0 .i64)) (.bin .band (.cast .u64 (.reg 1 .i64)) (.lit 63))) (.bin .shr (.cast .u64 (.reg 0 .i64)) (.bin .band (.bin .add (.bin .sub (.lit 63) (.cast .u64 (.reg 1 .i64))) (.lit 1)) (.lit 63))))),
     .ret (.reg 0 .i64)] }
-/-- `i64.rotr`  ⇒  R0.i64 = arg0; R1.i64 = arg1; R0.i64 = (((R0.i64) >> ((R1.i64) & (63))) | ((R0.i64) << (((63) - (R1.i64) + 1) & (63)))); return R0.i64; -/
+/-- `i64.rotr`  ⇒  R0.i64 = arg0; R1.i64 = arg1; R0.i64 = (int64_t)((((uint64_t)R0.i64) >> (((uint64_t)R1.i64) & (63))) | (((uint64_t)R0.i64) << (((63) - ((uint64_t)R1.i64) + 1) & (63)))); return R0.i64; -/
 def f_i64_rotr : CFunc := { params := [.i64, .i64], body := [
     .assign (.reg 0 .i64) (.arg 0 .i64),
     .assign (.reg 1 .i64) (.arg 1 .i64),
-    .assign (.reg 0 .i64) (.bin .bor (.bin .shr (.reg 0 .i64) (.bin .band (.reg 1 .i64) (.lit 63))) (.bin .shl (.reg 0 .i64) (.bin .band (.bin .add (.bin .sub (.lit 63) (.reg 1 .i64)) (.lit 1)) (.lit 63)))),
+    .assign (.reg 0 .i64) (.cast .i64 (.bin .bor (.bin .shr (.cast .u64 (.reg 0 .i64)) (.bin .band (.cast .u64 (.reg 1 .i64)) (.lit 63))) (.bin .shl (.cast .u64 (.reg 0 .i64)) (.bin .band (.bin .add (.bin .sub (.lit 63) (.cast .u64 (.reg 1 .i64))) (.lit 1)) (.lit 63))))),
     .ret (.reg 0 .i64)] }
 /-- `i64.eq`  ⇒  R0.i64 = arg0; R1.i64 = arg1; R0.i32 = (R0.i64==R1.i64)? 1: 0; return R0.i32; -/
 def f_i64_eq : CFunc := { params := [.i64, .i64], body := [
@@ -658,7 +660,7 @@ def f_i64_store32_o3 : CFunc := { params := [.i32, .i64], body := [
     .retVoid] }
 -- memory_size (memory.size): UNMODELLED: identifier app_memory_size   C: val_t R0; R0.i32 = app_memory_size; return R0.i32;
 -- memory_fill (memory.fill): UNMODELLED: identifier memset   C: val_t R0, R1, R2; R0.i32 = arg0; R1.i32 = arg1; R2.i32 = arg2; memset(&app_memory[R0.i32], R1.i32, R2.i32); return;
--- memory_copy (memory.copy): UNMODELLED: expected num None, got ('id', 'R2')   C: val_t R0, R1, R2; R0.i32 = arg0; R1.i32 = arg1; R2.i32 = arg2; memcpy(&app_memory[R0.i32], &app_memory[R1.i32], R2.i32); return;
+-- memory_copy (memory.copy): UNMODELLED: identifier memmove   C: val_t R0, R1, R2; R0.i32 = arg0; R1.i32 = arg1; R2.i32 = arg2; memmove(&app_memory[R0.i32], &app_memory[R1.i32], (uint32_t)R2.i32); return;
 
-def table : List (String × CFunc) := [("i32_add", f_i32_add), ("i32_sub", f_i32_sub), ("i32_mul", f_i32_mul), ("i32_div_s", f_i32_div_s), ("i32_div_u", f_i32_div_u), ("i32_rem_s", f_i32_rem_s), ("i32_rem_u", f_i32_rem_u), ("i32_and", f_i32_and), ("i32_or", f_i32_or), ("i32_xor", f_i32_xor), ("i32_shl", f_i32_shl), ("i32_shr_s", f_i32_shr_s), ("i32_shr_u", f_i32_shr_u), ("i32_rotl", f_i32_rotl), ("i32_rotr", f_i32_rotr), ("i32_eq", f_i32_eq), ("i32_ne", f_i32_ne), ("i32_lt_s", f_i32_lt_s), ("i32_lt_u", f_i32_lt_u), ("i32_gt_s", f_i32_gt_s), ("i32_gt_u", f_i32_gt_u), ("i32_le_s", f_i32_le_s), ("i32_le_u", f_i32_le_u), ("i32_ge_s", f_i32_ge_s), ("i32_ge_u", f_i32_ge_u), ("i32_eqz", f_i32_eqz), ("i32_clz", f_i32_clz), ("i32_ctz", f_i32_ctz), ("i32_popcnt", f_i32_popcnt), ("select_i32", f_select_i32), ("i64_add", f_i64_add), ("i64_sub", f_i64_sub), ("i64_mul", f_i64_mul), ("i64_div_s", f_i64_div_s), ("i64_div_u", f_i64_div_u), ("i64_rem_s", f_i64_rem_s), ("i64_rem_u", f_i64_rem_u), ("i64_and", f_i64_and), ("i64_or", f_i64_or), ("i64_xor", f_i64_xor), ("i64_shl", f_i64_shl), ("i64_shr_s", f_i64_shr_s), ("i64_shr_u", f_i64_shr_u), ("i64_rotl", f_i64_rotl), ("i64_rotr", f_i64_rotr), ("i64_eq", f_i64_eq), ("i64_ne", f_i64_ne), ("i64_lt_s", f_i64_lt_s), ("i64_lt_u", f_i64_lt_u), ("i64_gt_s", f_i64_gt_s), ("i64_gt_u", f_i64_gt_u), ("i64_le_s", f_i64_le_s), ("i64_le_u", f_i64_le_u), ("i64_ge_s", f_i64_ge_s), ("i64_ge_u", f_i64_ge_u), ("i64_eqz", f_i64_eqz), ("i64_clz", f_i64_clz), ("i64_ctz", f_i64_ctz), ("i64_popcnt", f_i64_popcnt), ("select_i64", f_select_i64), ("i32_wrap_i64", f_i32_wrap_i64), ("i64_extend_i32_s", f_i64_extend_i32_s), ("i64_extend_i32_u", f_i64_extend_i32_u), ("i32_const_0", f_i32_const_0), ("i32_const_1", f_i32_const_1), ("i32_const_2", f_i32_const_2), ("i32_const_3", f_i32_const_3), ("i32_const_4", f_i32_const_4), ("i32_const_5", f_i32_const_5), ("i64_const_0", f_i64_const_0), ("i64_const_1", f_i64_const_1), ("i64_const_2", f_i64_const_2), ("i64_const_3", f_i64_const_3), ("i64_const_5", f_i64_const_5), ("i64_const_6", f_i64_const_6), ("i32_load_o0", f_i32_load_o0), ("i32_load_o3", f_i32_load_o3), ("i64_load_o0", f_i64_load_o0), ("i64_load_o3", f_i64_load_o3), ("i32_load8_s_o0", f_i32_load8_s_o0), ("i32_load8_s_o3", f_i32_load8_s_o3), ("i32_load8_u_o0", f_i32_load8_u_o0), ("i32_load8_u_o3", f_i32_load8_u_o3), ("i32_load16_s_o0", f_i32_load16_s_o0), ("i32_load16_s_o3", f_i32_load16_s_o3), ("i32_load16_u_o0", f_i32_load16_u_o0), ("i32_load16_u_o3", f_i32_load16_u_o3), ("i64_load8_s_o0", f_i64_load8_s_o0), ("i64_load8_s_o3", f_i64_load8_s_o3), ("i64_load8_u_o0", f_i64_load8_u_o0), ("i64_load8_u_o3", f_i64_load8_u_o3), ("i64_load16_s_o0", f_i64_load16_s_o0), ("i64_load16_s_o3", f_i64_load16_s_o3), ("i64_load16_u_o0", f_i64_load16_u_o0), ("i64_load16_u_o3", f_i64_load16_u_o3), ("i64_load32_s_o0", f_i64_load32_s_o0), ("i64_load32_s_o3", f_i64_load32_s_o3), ("i64_load32_u_o0", f_i64_load32_u_o0), ("i64_load32_u_o3", f_i64_load32_u_o3), ("i32_store_o0", f_i32_store_o0), ("i32_store_o3", f_i32_store_o3), ("i64_store_o0", f_i64_store_o0), ("i64_store_o3", f_i64_store_o3), ("i32_store8_o0", f_i32_store8_o0), ("i32_store8_o3", f_i32_store8_o3), ("i32_store16_o0", f_i32_store16_o0), ("i32_store16_o3", f_i32_store16_o3), ("i64_store8_o0", f_i64_store8_o0), ("i64_store8_o3", f_i64_store8_o3), ("i64_store16_o0", f_i64_store16_o0), ("i64_store16_o3", f_i64_store16_o3), ("i64_store32_o0", f_i64_store32_o0), ("i64_store32_o3", f_i64_store32_o3)]
+def table : List (String × CFunc) := [("i32_add", f_i32_add), ("i32_sub", f_i32_sub), ("i32_mul", f_i32_mul), ("i32_div_s", f_i32_div_s), ("i32_div_u", f_i32_div_u), ("i32_rem_s", f_i32_rem_s), ("i32_rem_u", f_i32_rem_u), ("i32_and", f_i32_and), ("i32_or", f_i32_or), ("i32_xor", f_i32_xor), ("i32_shl", f_i32_shl), ("i32_shr_s", f_i32_shr_s), ("i32_shr_u", f_i32_shr_u), ("i32_rotl", f_i32_rotl), ("i32_rotr", f_i32_rotr), ("i32_eq", f_i32_eq), ("i32_ne", f_i32_ne), ("i32_lt_s", f_i32_lt_s), ("i32_lt_u", f_i32_lt_u), ("i32_gt_s", f_i32_gt_s), ("i32_gt_u", f_i32_gt_u), ("i32_le_s", f_i32_le_s), ("i32_le_u", f_i32_le_u), ("i32_ge_s", f_i32_ge_s), ("i32_ge_u", f_i32_ge_u), ("i32_eqz", f_i32_eqz), ("i32_clz", f_i32_clz), ("i32_ctz", f_i32_ctz), ("i32_popcnt", f_i32_popcnt), ("select_i32", f_select_i32), ("i64_add", f_i64_add), ("i64_sub", f_i64_sub), ("i64_mul", f_i64_mul), ("i64_div_u", f_i64_div_u), ("i64_rem_s", f_i64_rem_s), ("i64_rem_u", f_i64_rem_u), ("i64_and", f_i64_and), ("i64_or", f_i64_or), ("i64_xor", f_i64_xor), ("i64_shl", f_i64_shl), ("i64_shr_s", f_i64_shr_s), ("i64_shr_u", f_i64_shr_u), ("i64_rotl", f_i64_rotl), ("i64_rotr", f_i64_rotr), ("i64_eq", f_i64_eq), ("i64_ne", f_i64_ne), ("i64_lt_s", f_i64_lt_s), ("i64_lt_u", f_i64_lt_u), ("i64_gt_s", f_i64_gt_s), ("i64_gt_u", f_i64_gt_u), ("i64_le_s", f_i64_le_s), ("i64_le_u", f_i64_le_u), ("i64_ge_s", f_i64_ge_s), ("i64_ge_u", f_i64_ge_u), ("i64_eqz", f_i64_eqz), ("i64_clz", f_i64_clz), ("i64_ctz", f_i64_ctz), ("i64_popcnt", f_i64_popcnt), ("select_i64", f_select_i64), ("i32_wrap_i64", f_i32_wrap_i64), ("i64_extend_i32_s", f_i64_extend_i32_s), ("i64_extend_i32_u", f_i64_extend_i32_u), ("i32_const_0", f_i32_const_0), ("i32_const_1", f_i32_const_1), ("i32_const_2", f_i32_const_2), ("i32_const_3", f_i32_const_3), ("i32_const_4", f_i32_const_4), ("i32_const_5", f_i32_const_5), ("i64_const_0", f_i64_const_0), ("i64_const_1", f_i64_const_1), ("i64_const_2", f_i64_const_2), ("i64_const_3", f_i64_const_3), ("i64_const_5", f_i64_const_5), ("i64_const_6", f_i64_const_6), ("i32_load_o0", f_i32_load_o0), ("i32_load_o3", f_i32_load_o3), ("i64_load_o0", f_i64_load_o0), ("i64_load_o3", f_i64_load_o3), ("i32_load8_s_o0", f_i32_load8_s_o0), ("i32_load8_s_o3", f_i32_load8_s_o3), ("i32_load8_u_o0", f_i32_load8_u_o0), ("i32_load8_u_o3", f_i32_load8_u_o3), ("i32_load16_s_o0", f_i32_load16_s_o0), ("i32_load16_s_o3", f_i32_load16_s_o3), ("i32_load16_u_o0", f_i32_load16_u_o0), ("i32_load16_u_o3", f_i32_load16_u_o3), ("i64_load8_s_o0", f_i64_load8_s_o0), ("i64_load8_s_o3", f_i64_load8_s_o3), ("i64_load8_u_o0", f_i64_load8_u_o0), ("i64_load8_u_o3", f_i64_load8_u_o3), ("i64_load16_s_o0", f_i64_load16_s_o0), ("i64_load16_s_o3", f_i64_load16_s_o3), ("i64_load16_u_o0", f_i64_load16_u_o0), ("i64_load16_u_o3", f_i64_load16_u_o3), ("i64_load32_s_o0", f_i64_load32_s_o0), ("i64_load32_s_o3", f_i64_load32_s_o3), ("i64_load32_u_o0", f_i64_load32_u_o0), ("i64_load32_u_o3", f_i64_load32_u_o3), ("i32_store_o0", f_i32_store_o0), ("i32_store_o3", f_i32_store_o3), ("i64_store_o0", f_i64_store_o0), ("i64_store_o3", f_i64_store_o3), ("i32_store8_o0", f_i32_store8_o0), ("i32_store8_o3", f_i32_store8_o3), ("i32_store16_o0", f_i32_store16_o0), ("i32_store16_o3", f_i32_store16_o3), ("i64_store8_o0", f_i64_store8_o0), ("i64_store8_o3", f_i64_store8_o3), ("i64_store16_o0", f_i64_store16_o0), ("i64_store16_o3", f_i64_store16_o3), ("i64_store32_o0", f_i64_store32_o0), ("i64_store32_o3", f_i64_store32_o3)]
 end WaVerif.Gen.C03
